@@ -43,6 +43,9 @@ CHECKS = {
  "C15": ("exploration", "runtime monitor: value of random ^templates vs independent substitution function; macro call vs hand-written expansion in a twin interpreter; caller state before/after expansion",
          "Random nested templates with unquotes and splices at every position are evaluated by the real VM and compared structurally with an independent substitution over the same AST; ten macro shapes are called at six kinds of call site with effectful arguments and compared (value, trace) with the hand-written expansion in a twin interpreter; macexpand must print the model expansion, run nothing and leave stack depths, global names and global values untouched.",
          "Trusted: the 40-line substitution function; hash literals in templates denote (hash k v ...) lists as on the unchanged tree.", "DESIGN.md §4.C15"),
+ "C17": ("exploration", "runtime monitor: write histories over 20 write routes on instances of freshly declared structs; invariant walker over the live instances after every step against a declaration model",
+         "Random histories of constructions and field writes through every route (functions, dot paths, infix and index assignment, pointers, JSON/msgpack decoding, nested paths, element writes), with ill-typed, undeclared and exactly matching values and a redeclaration in between; after every step each live instance is inspected through the exported hash fields against the declaration in force at its creation; rejected writes must not change the instance and matching writes must succeed.",
+         "Trusted: the declaration model (arrays typed by their first element, as the language defines); one recorded finding (unchecked element writes into slice fields).", "DESIGN.md §4.C17"),
 }
 
 NA_REASON = {}
